@@ -98,7 +98,10 @@ def known_class(case, obs):
 def gen_pairs(rng, n, tier):
     for _ in range(n):
         c = fsrun.gen_scenario(rng, dry=False, fault=False,
-                               universe_name=["a", "b", "c", "d", "x", "y", "z", "e.txt", "s", "t"],
+                               universe_name=["a", "b", "c", "d", "x", "y", "z", "e.txt", "s", "t",
+                                              # (as generated names these are invalid; as custom answers they are other spellings
+                                              #  of a name in the same directory, which the in-place renamer refuses)
+                                              "s/../x", "../r1/y", "./z", "n/../a"],
                                universe_path=["a", "b", "c", "x", "y", "s/x", "s/a", "t/y", "n/x", "n/m/y", "s"])
         yield c
 
